@@ -278,6 +278,10 @@ func checkC08(c *Ctx) {
 	// ---- C08.10 "never early": nothing but the expiry sweep takes a registration out of the tables (a cap that evicts,
 	// a replacement that drops the old entry) - shared with C09.14
 	checkTableDeletes(c, "C08.10")
+	// ---- C08.11 the two tables are the same two maps for the life of the station: they are assigned where the registry is
+	// constructed and nowhere else (a "compacted" copy swapped in later loses every record added while it was being built -
+	// such a registration stays matchable and is never swept)
+	checkTablesNeverReplaced(c, "C08.11")
 
 	checkRemovalUnconditional(c, "C08.7")
 	checkExpiryClock(c, "C08.8")
@@ -858,4 +862,23 @@ func goStarted(f *ssa.Function) map[*ssa.Function]*ssa.Go {
 		}
 	})
 	return out
+}
+
+// checkTablesNeverReplaced (C08.11, C09.19)
+func checkTablesNeverReplaced(c *Ctx, rule string) {
+	r := c.R
+	r.Rule(rule, "the registration tables are assigned only where the registry is constructed", 2)
+	n := 0
+	for _, f := range c.funcsOfPkgs("pkg/station/lib") {
+		for _, fld := range []string{"decoys", "decoysTimeouts"} {
+			for _, st := range fieldStores(f, "lib.RegisteredDecoys", fld) {
+				n++
+				r.Check(freshRoot(st.Addr, f), rule, fnName(f)+": assigns RegisteredDecoys."+fld, st.Pos(), fnName(f), "on an object under construction",
+					"the table "+fld+" of the live registry is replaced by another map: records that other goroutines add to the old map between the copy and the swap are lost - registrations without a timeout record keep matching connections and are never removed")
+			}
+		}
+	}
+	if n == 0 {
+		r.Unk(rule, "assignments of the registration tables", token.NoPos, "", "none found (not even in the constructor)")
+	}
 }
